@@ -576,7 +576,10 @@ class WireEngine(BaseEngine):
                 'mutate': rng.random() < 0.3,
                 'bg': [pick(rng, BG_KINDS) for _ in range(rng.randint(1, 4))] if rng.random() < 0.3 else [],
                 'delays': [pick(rng, (0.0, 0.001, 0.4, 2.5, 3600.0)) for _ in range(3)] if rng.random() < 0.3 else [],
-                'take': pick(rng, ('list', 'list', 'get', 'first'))}
+                'take': pick(rng, ('list', 'list', 'get', 'first')),
+                # zero-length deliveries before some of the chunks of the full stream: [chunk index, container]
+                'empty_at': [[rng.randrange(8), pick(rng, ('bytes', 'list', 'bytearray', 'tuple', 'gen'))]
+                             for _ in range(rng.randint(1, 3))] if rng.random() < 0.25 else []}
 
     # ---------------- execution
     def run(self, prop, plan, keep_log=False):
@@ -936,7 +939,7 @@ class WireEngine(BaseEngine):
             return out
         return self._call(f'{where}:iter', list, p)
 
-    def _parse_chunked(self, where, data, chunks, how, delays=(), take='list'):
+    def _parse_chunked(self, where, data, chunks, how, delays=(), take='list', empty_at=()):
         """Parse `data` with a fresh real parser, cut as `chunks` says (virtual time may pass between cuts)."""
         if how == 'parse_all':
             return self._call(f'{where}:parse_all', mido.parse_all, list(data))
@@ -949,6 +952,9 @@ class WireEngine(BaseEngine):
                 continue
             if delays and pos:
                 self._vclock.now += delays[ci % len(delays)]
+            for eci, ehow in empty_at:
+                if eci == ci:
+                    self._call(f'{where}:feed-empty', p.feed, _as(ehow, []))    # a read that returned nothing
             pos += len(part)
             if how == 'byte':
                 for b in part:
@@ -1020,7 +1026,9 @@ class WireEngine(BaseEngine):
         for k in plan.get('bg', [])[2:]:
             background(k, stream, stats)
         b = [snap(m) for m in self._parse_chunked('full', stream, plan['chunks_full'], how, plan.get('delays', ()),
-                                                  plan.get('take', 'list'))]
+                                                  plan.get('take', 'list'), plan.get('empty_at', ()))]
+        if plan.get('empty_at') and how != 'parse_all':
+            stats['fault:empty_delivery'] += 1
         if plan.get('take', 'list') != 'list':
             stats['fault:consumer_takes_one_at_a_time'] += 1
         log.ev('full', len(stream), len(b), [repr(x) for x in b[:50]])
